@@ -41,7 +41,7 @@ fn state() -> &'static State {
         let mut dirs = vec![];
         let comps = [Comp::None, Comp::Zstd(5), Comp::Lz4(3), Comp::Lzma(3)];
         for (i, c) in comps.iter().enumerate() {
-            let spec = base_spec(i, Packaging::OneFile, *c, 7);
+            let spec = base_spec(i % 2, Packaging::OneFile, *c, 7); // the two small shapes (shapes 2.. are the big-table bases)
             let b = make_base(&format!("fuzz{i}"), &spec, &root, vec![]).expect("base builds");
             let d = root.join(format!("run{i}"));
             std::fs::create_dir_all(&d).unwrap();
@@ -62,8 +62,9 @@ fn state() -> &'static State {
                     let id = if msg.contains("C05 violation") { "C05" } else { "C06" };
                     let r = to_replay(&st.bases[*bi], edits, Profile::Release, None);
                     let saved = jbkv::engine::SavedFailure { property: id.into(), sig: format!("fuzz:{}", jbkv::engine::normalize_sig(&msg)), msg: msg.clone(), case: serde_json::to_value(r).unwrap(), note: "found by the libFuzzer target reader_edits".into() };
-                    let _ = std::fs::create_dir_all("/verif/replays");
-                    let p = format!("/verif/replays/{id}-fuzz-{:016x}.json", jbkv::engine::hash_str(&format!("{edits:?}{bi}")));
+                    let rdir = format!("{}/replays", jbkv::engine::verif_dir());
+                    let _ = std::fs::create_dir_all(&rdir);
+                    let p = format!("{rdir}/{id}-fuzz-{:016x}.json", jbkv::engine::hash_str(&format!("{edits:?}{bi}")));
                     let _ = std::fs::write(&p, serde_json::to_string_pretty(&saved).unwrap());
                     eprintln!("FUZZ-REPLAY {p}");
                 }
